@@ -174,6 +174,9 @@ var vfMutations = []vfMutation{
 		return true
 	}},
 	{"duplicate-filter-name", func(rt *rapid.T, p *vfPipe) bool {
+		if len(p.Filters) == 0 {
+			return false
+		}
 		f := p.Filters[vfRange(rt, 0, len(p.Filters)-1, "mutDupFilter")]
 		if rapid.Bool().Draw(rt, "mutDupOtherKind") {
 			if f.Kind == "VfRec" {
@@ -190,7 +193,7 @@ var vfMutations = []vfMutation{
 		return true
 	}},
 	{"filter-named-END", func(rt *rapid.T, p *vfPipe) bool {
-		if rapid.Bool().Draw(rt, "mutEndRename") {
+		if len(p.Filters) > 0 && rapid.Bool().Draw(rt, "mutEndRename") {
 			// rename an existing definition (its flow nodes follow: they become END nodes)
 			k := vfRange(rt, 0, len(p.Filters)-1, "mutEndFilter")
 			old := p.Filters[k].Name
@@ -218,6 +221,9 @@ var vfMutations = []vfMutation{
 				if f.Name != name {
 					nf = append(nf, f)
 				}
+			}
+			if len(nf) == 0 {
+				return false // "filters" is a required key: keep at least one definition
 			}
 			p.Filters = nf
 			return true
@@ -326,9 +332,10 @@ func TestVerifC02Validate(t *testing.T) {
 				vf.Violation(rt, key, "spec is invalid (%v) but supervisor.NewSpec accepts it (%s; mutations %v)\n%s", reasons, wrap, applied, y)
 				return
 			}
+			// (a rejection by the schema layer alone is still "rejected at validation": the verdict
+			// of the direct Spec.Validate call is only recorded)
 			if derr == nil {
-				vf.Violation(rt, key, "spec is invalid (%v) but Spec.Validate accepts it (mutations %v)\n%s", reasons, applied, y)
-				return
+				vf.Class("rejected-by-schema-layer-only")
 			}
 			return
 		}
@@ -344,4 +351,12 @@ func TestVerifC02Validate(t *testing.T) {
 			return
 		}
 	})
+	if !t.Failed() {
+		floors := map[string]float64{"verdict=invalid-for-exactly-one-reason": 0.40, "wrap=globalfilter-before": 0.05, "wrap=globalfilter-after": 0.05}
+		for _, r := range []string{"dup-filter-name", "reserved-filter-name", "missing-filter", "undeclared-result", "target-earlier",
+			"target-self", "target-unknown", "target-duplicated", "target-empty", "target-shared-with-END-node-alias"} {
+			floors["invalid:"+r] = 0.01
+		}
+		vfHealth(t, vf, floors)
+	}
 }
